@@ -263,8 +263,11 @@ class TileManager(object):
         Return the timestamp until which a tile should be accepted as up-to-date,
         or ``None`` if the tiles should not expire.
 
-        :note: Returns _expire_timestamp by default.
+        :note: An explicit threshold of a seed or cleanup task (_expire_timestamp)
+            takes precedence over the cache-level ``refresh_before`` rule.
         """
+        if self._expire_timestamp is not None:
+            return self._expire_timestamp
         if self._refresh_before:
             from mapproxy.seed.config import before_timestamp_from_options
             return before_timestamp_from_options(self._refresh_before)
